@@ -236,26 +236,24 @@ theorem addFieldsStage_ok (fs : Fields) (docs out : List Val)
   | nil => simp [addFieldsStage] at h
   | cons kv rest =>
     simp only [addFieldsStage] at h
-    split at h
-    · cases h
-    · cases hi : mapR afInit docs with
-      | error e => simp [hi] at h
-      | ok st =>
-        simp only [hi] at h
-        cases hf : afFields (kv :: rest) st with
-        | error e => simp [hf] at h
-        | ok st' =>
-          simp only [hf, Except.ok.injEq] at h
-          subst h
-          have h1 := mapR_ok_iff.1 hi
-          have h2 := afFields_ok _ _ _ hf
-          clear hi hf
-          induction h1 generalizing st' with
-          | nil => cases h2; exact List.Forall₂.nil
-          | cons hs _ ih =>
-            cases h2 with
-            | cons h3 h4 =>
-              refine List.Forall₂.cons ?_ (ih _ h4)
-              simp only [addFieldsDoc, hs, h3]
+    cases hi : mapR afInit docs with
+    | error e => simp [hi] at h
+    | ok st =>
+      simp only [hi] at h
+      cases hf : afFields (kv :: rest) st with
+      | error e => simp [hf] at h
+      | ok st' =>
+        simp only [hf, Except.ok.injEq] at h
+        subst h
+        have h1 := mapR_ok_iff.1 hi
+        have h2 := afFields_ok _ _ _ hf
+        clear hi hf
+        induction h1 generalizing st' with
+        | nil => cases h2; exact List.Forall₂.nil
+        | cons hs _ ih =>
+          cases h2 with
+          | cons h3 h4 =>
+            refine List.Forall₂.cons ?_ (ih _ h4)
+            simp only [addFieldsDoc, hs, h3]
 
 end MongoModel.Pipe.Proofs
